@@ -148,14 +148,18 @@ def close_view(dom, view):
     return view
 
 
-def split_domain(rng, dom, n):
+def split_domain(rng, dom, n, mode="mixed"):
+    """mode: mixed (public / private parts at random), full (every file holds everything: total overlap),
+    disjoint (every item in exactly one file; what its elements refer to is added by close_view)"""
     views = [{"actions": set(), "preds": set(), "funcs": set(), "consts": set(), "types": set(), "reqs": []}
              for _ in range(n)]
 
     def spread(section, names, p_public):
         for name in names:
-            if rng.random() < p_public:
+            if mode == "full" or (mode == "mixed" and rng.random() < p_public):
                 who = range(n)
+            elif mode == "disjoint":
+                who = [rng.randrange(n)]
             else:
                 who = [i for i in range(n) if rng.random() < 0.35] or [rng.randrange(n)]
             for i in who:
@@ -330,10 +334,10 @@ def gen_problem(rng, dom):
     rng.shuffle(objs)
     everything = objs + dom["consts"]
 
-    def ground(sg):
+    def ground(sg, repeats=False):
         args, used = [], set()
         for _, pt in sg:
-            cands = [n for n, t in everything if (pt == "object" or is_sub(types, t, pt)) and n not in used]
+            cands = [n for n, t in everything if (pt == "object" or is_sub(types, t, pt)) and (repeats or n not in used)]
             if not cands:
                 return None
             x = rng.choice(cands)
@@ -345,7 +349,7 @@ def gen_problem(rng, dom):
         out = []
         for _ in range(k):
             p, sg = rng.choice(dom["preds"])
-            g = ground(sg)
+            g = ground(sg, repeats=rng.random() < 0.15)   # facts / goal literals may use an object twice: (near a a)
             if g is not None:
                 out.append("(%s)" % " ".join([p] + g))
         return list(dict.fromkeys(out))
@@ -430,14 +434,16 @@ def mentioned(text, names):
     return [n for n in names if n in toks]
 
 
-def split_problem(rng, prob, n):
+def split_problem(rng, prob, n, mode="mixed"):
     views = [{"objs": set(), "facts": [], "fluents": [], "goals": [], "ngoals": []} for _ in range(n)]
     onames = [o for o, _ in prob["objs"]]
 
     def spread(section, items, p_public):
         for it in items:
-            if rng.random() < p_public:
+            if mode == "full" or (mode == "mixed" and rng.random() < p_public):
                 who = range(n)
+            elif mode == "disjoint":
+                who = [rng.randrange(n)]
             else:
                 who = [i for i in range(n) if rng.random() < 0.4] or [rng.randrange(n)]
             for i in who:
@@ -555,14 +561,15 @@ def generated_directories(rng, tier):
         dom = gen_domain(rng, untyped=rng.random() < 0.12)
         n = rng.choice([1, 2, 2, 3, 3, 4])
         agents = rng.sample(range(100, 999), n)
-        views = split_domain(rng, dom, n)
+        mode = rng.choice(["mixed"] * 7 + ["full", "full", "disjoint"])
+        views = split_domain(rng, dom, n, mode)
         conflict = inject_domain_conflict(rng, dom, views) if rng.random() < 0.2 else None
         dfiles = {}
         for i, v in enumerate(views):
             ov = conflict[1] if conflict and conflict[0] == i else None
             dfiles["domain-ag%d.pddl" % agents[i]] = render_domain(rng, dom, v, ov)
         prob = gen_problem(rng, dom)
-        pviews = split_problem(rng, prob, n)
+        pviews = split_problem(rng, prob, n, rng.choice([mode, "mixed"]))
         pconflict = inject_problem_conflict(rng, prob, pviews, dom) if rng.random() < 0.2 else None
         pfiles = {}
         for i, v in enumerate(pviews):
@@ -573,7 +580,8 @@ def generated_directories(rng, tier):
                "original_problem": None if (conflict or pconflict) else render_problem(rng, prob),
                "conflict": conflict[2] if conflict else None,
                "pconflict": pconflict[2] if pconflict else None,
-               "others": other_domains(rng), "n": n, "untyped": bool(dom.get("untyped")), "near": prob.get("near", 0)}
+               "others": other_domains(rng), "n": n, "untyped": bool(dom.get("untyped")), "near": prob.get("near", 0),
+               "split": mode}
 
 
 def fixture_directories():
@@ -693,7 +701,7 @@ def build_jobs(rng, tier):
                    "others": d["others"], "original_domain": d["original_domain"],
                    "original_problem": d["original_problem"], "conflict": d["conflict"], "pconflict": d["pconflict"],
                    "n": d["n"], "domain_path": d.get("domain_path"), "dorder": None, "porder": None,
-                   "untyped": d.get("untyped", False), "near": d.get("near", 0)}
+                   "untyped": d.get("untyped", False), "near": d.get("near", 0), "split": d.get("split")}
             if order is not None:
                 job["dorder"] = [x for x in order if x in d["dfiles"]] or None
                 # the problems are enumerated independently of the domains: give them their own order
@@ -1130,6 +1138,8 @@ def run(args):
         "jobs_with_both_dummy_settings": sum(1 for r in results if "dobs2" in r),
         "exports_reparsed": sum(1 for r in results for k in ("drt", "drt2", "prt") if k in r),
         "unrelated_domains_per_job": max([len(j.get("others", {})) for j in jobs] or [0]),
+        "directories_by_split_mode": {m: len({j.get("dir") for j in jobs if j.get("split") == m})
+                                      for m in ("mixed", "full", "disjoint")},
     }
     del dist["new_classes"]["agent_files_declaring_a_constant_bare_at_the_end"]
     sizes = [len(r["dobs"]["ok"][s]) for r in results if "ok" in r.get("dobs", {}) for s in ("types", "preds", "acts")]
